@@ -5415,3 +5415,44 @@ def shr7(ctx):
     if n < 1:
         raise AnchorMissing("SHR-7: the Optional arm of context_match calling context_match_option was not found")
     return r
+
+
+# ---------------------------------------------------------------- SUP-12: a composite modifier matcher only says no when a component said no
+
+def sup12(ctx):
+    """A matrix matches a segment iff every named feature has the named value. SubRule::match_modifiers and
+    match_supr_mod_seg are conjunctions of component tests (match_feat_mod per feature, match_node_mod per node,
+    match_stress, match_seg_length, match_tone): a constant `Ok(false)` they return is the answer of one of those
+    components. On MIR, every block that stores `Ok(const false)` into the return place is dominated by a call to a
+    component matcher `SubRule::match_*`; a `no` decided before any component was asked (a shortcut on the shape of the
+    segment, e.g. 'placeless segments never match a feature from c.g. on') overrides the per-feature rule."""
+    r = RuleResult("SUP-12", "SubRule::match_modifiers / match_supr_mod_seg: every constant `Ok(false)` result is dominated by a call to a component matcher SubRule::match_* (MIR dominators)", floor=4)
+    lib = ctx.lib
+    n = 0
+    for name in ("match_modifiers", "match_supr_mod_seg"):
+        b = ctx.fn(lib, "asca::subrule::SubRule::" + name)
+        cfg = b.cfg
+        comp = [i for i, t in b.calls() if (callee_path(t) or "").startswith("asca::subrule::SubRule::match_")
+                and not (callee_path(t) or "").endswith("::" + name)]
+        if not comp:
+            raise AnchorMissing("SUP-12: %s calls no component matcher SubRule::match_*" % name)
+        for i, bl in enumerate(b.blocks):
+            if bl.get("cleanup") or i not in cfg.reachable_from(0):
+                continue
+            for s in bl["s"]:
+                if s["k"] != "assign" or s["lhs"]["l"] != 0 or s["lhs"]["p"]:
+                    continue
+                rv = s["rv"]
+                if not (rv.get("k") == "agg" and rv.get("variant") == "Ok" and len(rv.get("ops") or []) == 1
+                        and rv["ops"][0].get("k") == "const" and rv["ops"][0].get("bool") is False):
+                    continue
+                n += 1
+                ok = any(c != i and cfg.dominates(c, i) for c in comp)
+                line = int(s["loc"].rsplit(":", 2)[1]) if s.get("loc") else None
+                r.inst("%s: `Ok(false)` follows a component matcher's answer" % name, fn_loc(b, line), "ok" if ok else "report")
+                if not ok:
+                    r.report("SUP-12|%s" % name, fn_loc(b, line), b.path,
+                             "SubRule::%s returns `Ok(false)` on a path on which no component matcher (match_feat_mod / match_node_mod / match_stress / match_seg_length) has been asked: the matrix is refused for a reason other than a named feature's value -- e.g. `[-c.g.]` no longer matches `h` / `ʔ` when placeless segments are rejected up front" % name)
+    if n < 4:
+        raise AnchorMissing("SUP-12: %d constant Ok(false) results examined (expected >= 4)" % n)
+    return r
